@@ -50,14 +50,15 @@ SameT(a, b) ==
      slice: index-wise, the longer tail of old kept; array: element by element; map: key by key, old keys kept
      everything else: the new value.  Compared modulo nil ~ empty collections (as C06 does).                      *)
 IsNilV(v) == "nil" \in DOMAIN v
+ZV(k, v) == [k |-> k, v |-> v, sg |-> 0]      \* a zero primitive with its sign (see the C04 part below)
 RECURSIVE ZeroV(_)
 ZeroV(t) ==
   CASE t.k = "bool" -> V("bool", FALSE)
-    [] t.k \in {"int8", "int16", "int32", "int64", "int"} -> V("int", "0")
-    [] t.k \in {"uint8", "uint16", "uint32", "uint64", "uint"} -> V("uint", "0")
-    [] t.k \in {"float32", "float64"} -> V("float", "0")
-    [] t.k \in {"string", "ustr", "uany"} -> V("string", "")
-    [] t.k = "dur" -> V("dur", "0")
+    [] t.k \in {"int8", "int16", "int32", "int64", "int"} -> ZV("int", "0")
+    [] t.k \in {"uint8", "uint16", "uint32", "uint64", "uint"} -> ZV("uint", "0")
+    [] t.k \in {"float32", "float64"} -> ZV("float", "0")
+    [] t.k \in {"string", "ustr", "uany"} -> ZV("string", "")
+    [] t.k = "dur" -> ZV("dur", "0")
     [] t.k \in {"ptr", "slice", "map"} -> NilV(t.k)
     [] t.k = "array" -> [k |-> "array", xs |-> [i \in 1..t.n |-> ZeroV(t.e)]]
     [] t.k = "struct" -> [k |-> "struct", f |-> [i \in 1..Len(t.f) |-> ZeroV(t.f[i].t)]]
@@ -104,16 +105,40 @@ FrameWant(ev) ==
   [k |-> "struct", f |-> [i \in 1..Len(ev.ty.f) |->
       IF (\E j \in 1..Len(ev.frame.drop) : ev.frame.drop[j] = i) \/ ev.ty.f[i].mode = "ignore" THEN ev.frame.old.f[i]
       ELSE Ov(ev.frame.pol, ev.ty.f[i].t, ev.frame.old.f[i], ev.frame.new.f[i])]]
-FrameOK(ev) == "got" \in DOMAIN ev.frame /\ NormV(ev.ty, ev.frame.got) = NormV(ev.ty, FrameWant(ev))
+
+(* ---- C04 on the same random types: every fourth plain primitive field carries validate:"nonzero" / "required" /
+   "positive".  The round trip succeeds iff every validated field REACHABLE in the value satisfies its tag (behind a nil
+   pointer, in a nil slice or map nothing is reachable); otherwise Unpack fails.  sg is the sign the driver records with
+   every primitive (strings: 0 = empty).                                                                              *)
+Breaks(f, v) == CASE f.val \in {"nonzero", "required"} -> v.sg = 0
+                  [] f.val = "positive" -> v.sg < 0
+                  [] OTHER -> FALSE
+RECURSIVE AnyInvalid(_,_)
+AnyInvalid(t, v) ==
+  IF IsNilV(v) THEN FALSE
+  ELSE CASE t.k = "ptr" -> AnyInvalid(t.e, v.p)
+         [] t.k \in {"slice", "array"} -> \E i \in 1..Len(v.xs) : AnyInvalid(t.e, v.xs[i])
+         [] t.k = "map" -> \E q \in DOMAIN v.m : AnyInvalid(t.e, v.m[q])
+         [] t.k = "struct" -> \E i \in 1..Len(t.f) :
+                                 /\ t.f[i].mode # "ignore"
+                                 /\ \/ (t.f[i].val # "" /\ Breaks(t.f[i], v.f[i]))
+                                    \/ AnyInvalid(t.f[i].t, v.f[i])
+         [] OTHER -> FALSE
+
+\* the frame part: a pre-filled value the configuration does not replace must satisfy its validators as well
+FrameOK(ev) == IF AnyInvalid(ev.ty, FrameWant(ev)) THEN "err" \in DOMAIN ev.frame
+               ELSE ("got" \in DOMAIN ev.frame /\ NormV(ev.ty, ev.frame.got) = NormV(ev.ty, FrameWant(ev)))
 
 FaultClaim(ev) ==
   LET ss == {s \in Sites(ev.ty, ev.val, <<>>) : s.p = ev.fault.path} IN
   IF ss = {} THEN FALSE
   ELSE LET s == CHOOSE x \in ss : TRUE IN \E f \in FaultsFor(s.t, 0) : f.tree.k = ev.fault.tree.k /\ f.tree = ev.fault.tree
+\* ... and the target (pre-filled with the value) still holds its previous field values after the failed call (C13)
 FaultOK(ev) == ev.fault.obs.kind = "err" /\ ev.fault.obs.typed = "" /\ ev.fault.obs.source = "trace.yml" /\ ev.fault.obs.path = PathStr(ev.fault.path)
+               /\ ev.fault.obs.untouched
 EventOK(ev) ==
   /\ SameT(ObsT(Pack(ev.ty, ev.val)), ev.tree)
-  /\ ev.back = "same"
+  /\ IF AnyInvalid(ev.ty, ev.val) THEN ev.backkind = "unpack-error" ELSE ev.back = "same"
   /\ ("fault" \in DOMAIN ev /\ FaultClaim(ev) => FaultOK(ev))
   /\ ("frame" \in DOMAIN ev => FrameOK(ev))
 Init == l = 1 /\ known = [d \in Known |-> 0] /\ bad = <<>> /\ nviol = 0 /\ nfault = 0
